@@ -99,6 +99,31 @@ theorem C16_add (dg : Str → Str → Except Err Str) (tbl : Table) (rel ct : St
         refine ⟨d, by simp [add, hrel, hg, hN, hd], hn, ?_, fun _ => ⟨r, rfl, hd⟩⟩
         intro ht; rw [hv] at ht; cases ht
 
+/-- the first sentence of the property in one statement: `add(path, type)` without a value on a file system `files`
+records, under the normalised relative path, the one-shot digest of the FULL content of `root/normpath(path)` -/
+theorem C16_add_computes {H : Type} (init : H) (upd : H → Bytes → H) (dig : H → Str)
+    (law : ∀ h a b, upd (upd h a) b = upd h (a ++ b)) (unit : ∀ h, upd h [] = h)
+    (files : Str → Option Bytes) (tbl : Table) (rel ct root : Str)
+    (hrel : Str.startsWith rel ['/'] = false)
+    (hok : (add (fun p _ => match files p with
+                   | some c => .ok (compute init upd dig c)
+                   | none => .error .other) tbl rel ct none (some root)).2 = .ok ()) :
+    ∃ content, files (pathJoin root (normpath rel)) = some content
+      ∧ (add (fun p _ => match files p with
+                   | some c => .ok (compute init upd dig c)
+                   | none => .error .other) tbl rel ct none (some root)).1
+          = tbl.set (normpath rel) (ct, dig (upd init content)) := by
+  obtain ⟨d, hd, _, _, hcomp⟩ := C16_add _ tbl rel ct none (some root) hrel hok
+  obtain ⟨r, hr, hdig⟩ := hcomp (by simp [valTruthy])
+  have : r = root := by simpa using hr.symm
+  subst this
+  cases hf : files (pathJoin r (normpath rel)) with
+  | none => simp [hf] at hdig
+  | some content =>
+    simp only [hf, Except.ok.injEq] at hdig
+    refine ⟨content, rfl, ?_⟩
+    rw [hd, ← hdig, C16_compute init upd dig law unit content]
+
 /-- invariant over ANY history of adds: if no key of the table is absolute, none is afterwards (so the
 relative-path validator can never fire on a table built through `add`) -/
 theorem C16_add_invariant (dg : Str → Str → Except Err Str) (tbl : Table) (rel ct : Str) (v root : Option Str)
@@ -212,6 +237,30 @@ theorem C16_all_typed (sec : List (Str × Str)) (cs : Table) (h : deserialize fa
           · exact ih _ _ _ h e he
     exact key sec none [] t hl
 
+/-- header-less (pre-productmd) files: `_fix_path` only rewrites ABSOLUTE keys, so a section whose keys are all
+relative is read exactly like a current one – the pointwise statement carries over -/
+theorem C16_pointwise_legacy (sec : List (Str × Str)) (cs : Table)
+    (hrel : ∀ e ∈ sec, Str.startsWith e.1 ['/'] = false) (h : deserialize true sec = .ok cs) :
+    ∀ p, cs.get? p = (lastVal sec p).bind (fun v => (typed v).toOption) := by
+  have key : ∀ (sec : List (Str × Str)) (prev : Option (Str × Str)) (tbl : Table),
+      (∀ e ∈ sec, Str.startsWith e.1 ['/'] = false) → deserLoop true sec prev tbl = deserLoop false sec prev tbl := by
+    intro sec
+    induction sec with
+    | nil => intro _ _ _; rfl
+    | cons x rest ih =>
+      intro prev tbl hr
+      obtain ⟨k, v⟩ := x
+      have hk : Str.startsWith k ['/'] = false := hr (k, v) (by simp)
+      simp only [deserLoop, fixPath, hk, Bool.false_eq_true, and_false, false_and, if_false]
+      cases entryOf prev v with
+      | error e => rfl
+      | ok tv => exact ih _ _ (fun e he => hr e (by simp [he]))
+  have : deserialize false sec = .ok cs := by
+    unfold deserialize at h ⊢
+    rw [← key sec none [] hrel]
+    exact h
+  exact C16_pointwise sec cs this
+
 /-- the legacy typing table is the documented one: 32/40/64 characters are md5/sha1/sha256, nothing else is accepted -/
 theorem C16_legacy_table :
     Gen.legacyDigestTypes = [(32, "md5".toList), (40, "sha1".toList), (64, "sha256".toList)]
@@ -275,6 +324,67 @@ theorem C16_roundtrip (tbl : Table) (hrel : validatePaths tbl = .ok ())
   unfold deserialize
   rw [deserLoop_serialized tbl [] none hc hnd (by simp)]
   simp [hrel]
+
+theorem splitOn_length (sep : Char) : ∀ (s : Str), (Str.splitOn sep s).length = Str.count sep s + 1 := by
+  intro s
+  induction s with
+  | nil => simp [Str.splitOn, Str.count]
+  | cons c cs ih =>
+    simp only [Str.splitOn, Str.count] at ih ⊢
+    by_cases hc : c = sep
+    · simp [hc, ih]
+    · simp only [hc, if_false]
+      cases hs : Str.splitOn sep cs with
+      | nil => exact absurd hs (splitOn_ne_nil sep cs)
+      | cons h t =>
+        rw [hs] at ih
+        simp only [List.length_cons] at ih ⊢
+        simp [List.filter_cons, hc, ih]
+
+theorem splitTyped_two_colons (t v : Str) (h : ':' ∈ t ∨ ':' ∈ v) : splitTyped (t ++ ':' :: v) = .error .valueError := by
+  have hlen : 3 ≤ (Str.splitOn ':' (t ++ ':' :: v)).length := by
+    rw [splitOn_length]
+    simp only [Str.count, List.filter_append, List.length_append, List.filter_cons, if_true, decide_true, List.length_cons]
+    rcases h with h | h
+    · have : 0 < (t.filter (fun x => decide (x = ':'))).length :=
+        List.length_pos_iff.mpr (by intro h0; have := List.filter_eq_nil_iff.mp h0 ':' h; simp at this)
+      omega
+    · have : 0 < (v.filter (fun x => decide (x = ':'))).length :=
+        List.length_pos_iff.mpr (by intro h0; have := List.filter_eq_nil_iff.mp h0 ':' h; simp at this)
+      omega
+  unfold splitTyped
+  split
+  · rename_i a b heq; rw [heq] at hlen; simp at hlen
+  · rfl
+
+/-- a table in which some type or value contains `:` cannot be read back – and it is REFUSED (ValueError), never read
+back as something else -/
+theorem C16_roundtrip_refuses (tbl : Table) (hrel : validatePaths tbl = .ok ())
+    (hc : ∃ e ∈ tbl, ':' ∈ e.2.1 ∨ ':' ∈ e.2.2) :
+    (serialize tbl).bind (fun sec => deserialize false sec) = .error .valueError := by
+  simp only [serialize, hrel, Except.bind]
+  have key : ∀ (tbl : Table) (prev : Option (Str × Str)) (acc : Table), (∃ e ∈ tbl, ':' ∈ e.2.1 ∨ ':' ∈ e.2.2) →
+      deserLoop false (tbl.map fun e => (e.1, e.2.1 ++ ':' :: e.2.2)) prev acc = .error .valueError := by
+    intro tbl
+    induction tbl with
+    | nil => intro _ _ h; obtain ⟨e, he, _⟩ := h; simp at he
+    | cons x rest ih =>
+      intro prev acc h
+      obtain ⟨k, t, v⟩ := x
+      have hcont : (t ++ ':' :: v).contains ':' = true := by simp
+      simp only [List.map_cons, deserLoop, entryOf, hcont, if_true]
+      by_cases hx : ':' ∈ t ∨ ':' ∈ v
+      · simp [splitTyped_two_colons t v hx]
+      · have hx' : ':' ∉ t ∧ ':' ∉ v := by simpa [not_or] using hx
+        simp only [splitTyped_join t v hx'.1 hx'.2]
+        apply ih
+        obtain ⟨e, he, hbad⟩ := h
+        simp only [List.mem_cons] at he
+        rcases he with he | he
+        · subst he; exact absurd hbad hx
+        · exact ⟨e, he, hbad⟩
+  unfold deserialize
+  rw [key tbl none [] hc]
 
 /-! ### Image.add_checksum never replaces a recorded value -/
 
